@@ -27,11 +27,46 @@ def _write_parts(arg):
     return [("?", A.norm(arg))]
 
 
+_REPO = None  # set by run(): lets tokens() inline module-level helpers of json_writer.py
+
+
+def _inline_helper(call, fv):
+    """`helper(a, b, f)` where helper is a function of the writer module: its body's writes with the parameters replaced by the
+    arguments (by text).  -> token list, or None when the call is not such a helper."""
+    if _REPO is None or not isinstance(call.func, ast.Name):
+        return None
+    h = _REPO.funcs.get(f"{JW}:{call.func.id}")
+    if h is None:
+        return None
+    params = [a.arg for a in h.node.args.args]
+    bind = {p: A.norm(a) for p, a in zip(params, call.args)}
+    bind.update({k.arg: A.norm(k.value) for k in call.keywords if k.arg})
+    inner_fv = next((p for p, a in bind.items() if a == fv), None)
+    if inner_fv is None:
+        return None
+
+    class Sub(ast.NodeTransformer):
+        def visit_Name(self, n):
+            if n.id in bind:
+                return ast.parse(bind[n.id], mode="eval").body
+            return n
+    import copy
+
+    body = [Sub().visit(copy.deepcopy(st)) for st in A.body(h.node)]
+    fake = ast.With(items=[ast.withitem(context_expr=ast.Constant(None), optional_vars=ast.Name(id=fv, ctx=ast.Store()))], body=body)
+    return tokens(ast.fix_missing_locations(fake))
+
+
 def tokens(with_stmt):
     """sequence of ('W', const) / ('REC', record expr) writes inside a `with open(...) as f` block; adjacent constants are merged"""
     fv = _file_var(with_stmt)
     out = []
     for s in with_stmt.body:
+        if isinstance(s, ast.Expr) and isinstance(s.value, ast.Call):
+            inl = _inline_helper(s.value, fv)
+            if inl is not None:
+                out.extend(inl)
+                continue
         if isinstance(s, ast.Expr) and isinstance(s.value, ast.Call):
             cn = A.call_name(s.value)
             if fv and cn == f"{fv}.write" and len(s.value.args) == 1:
@@ -98,7 +133,9 @@ def possible_modes(func, mode_expr, path_txt, depth=0):
 
 
 def run(ctx):
+    global _REPO
     repo = ctx.repo
+    _REPO = repo
     ctx.explanation = (
         "Decided: D1 token grammar of JSONWriter: per branch the sequence of constant writes and json.dump calls gives, for the document "
         "sequence start other* stop, the text `[ REC (, REC)* ]` with every record {name, doc}: start writes '[', REC, ','; every other "
@@ -224,10 +261,12 @@ MUTANTS = [
     ("record drops the name", [(J, "            with open(self.dirname / self.filename, \"a\") as file:\n                json.dump({\"name\": name, \"doc\": doc}, file)\n                file.write(\"\\n]\")", "            with open(self.dirname / self.filename, \"a\") as file:\n                json.dump({\"doc\": doc}, file)\n                file.write(\"\\n]\")")], "C34.D1"),
 ]
 MUTANTS += [
+    ("records pass through truncate_json_overflow (seed C34-b)", [(J, "            json.dump({\"name\": name, \"doc\": doc}, file)\n            file.write(\"\\n\")\n", "            json.dump({\"name\": name, \"doc\": truncate_json_overflow(doc)}, file)\n            file.write(\"\\n\")\n")], "C34.D1"),
     ("lines writer probes the last byte without a size guard (seed C34-a)", [(J, "        with open(self.dirname / self.filename, mode) as file:\n            json.dump", "        if mode == \"a\":\n            with open(self.dirname / self.filename, \"rb\") as probe:\n                probe.seek(-1, 2)\n                probe.read(1)\n        with open(self.dirname / self.filename, mode) as file:\n            json.dump")], "C34.D2-file-api"),
     ("lines writer truncates when the file exists", [(J, "        mode = \"a\" if (self.dirname / self.filename).exists() else \"w\"", "        mode = \"w\" if (self.dirname / self.filename).exists() else \"a\"")], "C34.D2"),
 ]
 BENIGN = [
+    ("lines writer dumps through a module-level helper (same record)", [(J, "class JSONLinesWriter:", "def _dump_record(name, doc, file):\n    json.dump({\"name\": name, \"doc\": doc}, file)\n\n\nclass JSONLinesWriter:"), (J, "            json.dump({\"name\": name, \"doc\": doc}, file)\n            file.write(\"\\n\")\n", "            _dump_record(name, doc, file)\n            file.write(\"\\n\")\n")]),
     ("lines writer always appends ('a' creates the file)", [(J, "        mode = \"a\" if (self.dirname / self.filename).exists() else \"w\"", "        mode = \"a\"")]),
     ("lines writer writes dumps + newline in one call", [(J, "            json.dump({\"name\": name, \"doc\": doc}, file)\n            file.write(\"\\n\")\n", "            file.write(json.dumps({\"name\": name, \"doc\": doc}) + \"\\n\")\n")]),
     ("lines writer uses a different handle name and a guarded probe", [(J, "        with open(self.dirname / self.filename, mode) as file:\n            json.dump({\"name\": name, \"doc\": doc}, file)\n            file.write(\"\\n\")", "        target = self.dirname / self.filename\n        if mode == \"a\" and target.stat().st_size > 0:\n            with open(target, \"rb\") as probe:\n                probe.seek(-1, 2)\n        with open(self.dirname / self.filename, mode) as out:\n            json.dump({\"name\": name, \"doc\": doc}, out)\n            out.write(\"\\n\")")]),
